@@ -75,10 +75,17 @@ CHECKS.update({
    technique="TLA+ import-set relation vs transcription of engine/import.go (exhaustive TLC check) + trace validation"),
 })
 
+CHECKS.update({
+ "C14": dict(level="model_checking", ref="5/C14",
+   note="the gates of the verif build as scheduling points; goroutine identity from runtime.Stack in the harness scheduler; byte comparison with solo results; patch.VerifProgramHash (reflection) for immutability; Go race detector for the free-running part; lib/fam_run.py abstraction of per-file outcomes for the command half; TLC evaluating Concurrent.tla / Indep.tla",
+   text="Concurrent.tla models concurrent File.Apply calls on one parsed patch as processes advancing through the gate points of patch/gopatch.go (which points a call passes is a function of its source kind: both / first / second / no change matches, parse error, failing replacement) over a shared FileSet and an immutable program; TLC checks result-as-alone, non-interference, immutability and termination over every interleaving and prints each interleaving; every interleaving (quick: a seeded sample) is replayed on real goroutines through the gates, the recorded passages are validated action by action against the model (TraceConcurrent.tla), each call's bytes / error are compared with the same source applied alone and a deep hash of the compiled program is taken after every step. Sequential histories and free-running goroutines under the race detector go through the same trace spec. Command half: Indep.tla enumerates sequences of 2..3 files of 6 kinds x argument orders x 3 modes; each run is executed twice and TLC compares every file's outcome with its solo run.",
+   technique="TLA+ interleaving model + TLC-enumerated schedules replayed through scheduler gates on real goroutines + trace validation; TLC-enumerated multi-file runs judged against solo runs"),
+})
+ENGINE_OF = {"C14": "tla-concurrent"}
+
 NOT_YET = {
 }
 
-ENGINE_OF = {}
 for _p in ("C01", "C02", "C03", "C04", "C05"):
     ENGINE_OF[_p] = "tla-rewrite"
 for _p in ("C13", "C19"):
@@ -127,6 +134,8 @@ def main():
              "serves_properties": ["C13", "C19"], "kind_free_text": "token-level model of the patch sectioner and metavariable parser; line-kind machine of the sectioner"},
             {"name": "tla-imports", "path": "spec/Imports.tla spec/EmitImports.tla spec/TraceImports.tla lib/fam_imports.py harness/api.go",
              "serves_properties": ["C10", "C11"], "kind_free_text": "guard table and import-set relation (P) vs transcription of engine/import.go (I); scenarios replayed into patch.Parse/File.Apply and judged by TLC"},
+            {"name": "tla-concurrent", "path": "spec/Concurrent.tla spec/EmitConcurrent.tla spec/TraceConcurrent.tla spec/Indep.tla spec/TraceIndep.tla harness/sched.go lib/prop_c14.py",
+             "serves_properties": ["C14"], "kind_free_text": "interleaving model of concurrent Apply calls; schedules replayed through gate hooks on real goroutines; multi-file runs vs solo runs"},
             {"name": "tla-history", "path": "spec/History.tla spec/EmitHistory.tla spec/TraceHistory.tla lib/prop_c09.py",
              "serves_properties": ["C09"], "kind_free_text": "state machine of the apply loop over change sequences vs chain-of-runs semantics; seven delivery routes and hook events validated by TLC"},
             {"name": "tla-rewrite", "path": "spec/Pattern.tla spec/RewriteUniverse.tla spec/MCRewrite.tla spec/TraceRewrite.tla harness/",
